@@ -2,7 +2,7 @@
    `exact`, so it is checked to be convertible with it); proofs in RcP.v (strong side) and RcWeakP.v (weak side) *)
 From Coq Require Import ZArith List Bool Lia Arith.
 Import ListNotations.
-Require Import Params StateW DisposeW Rc RcSpec RcP RcWeakP.
+Require Import Params StateW DisposeW ModularW RcSnapCheck RcSnapP RcSnapInvP RcWSnapInvP Rc RcSpec RcP RcWeakP.
 Local Open Scope Z_scope.
 
 Theorem C10_count_equals_owners :
@@ -12,4 +12,19 @@ Theorem C10_count_equals_owners :
     strong (word ob) = owners s o + b2z (tok ob) /\ (owners s o = 0 -> tok ob = false -> attempts s o = 1).
 Proof. exact RcWeakP.C10. Qed.
 Print Assumptions C10_count_equals_owners.
+
+
+(* ---- FINAL FORM (RcWSnapInvP.v): the same statements under run_ok only - fresh start, well-formed programs
+   (cellops_ok, bounded_run) and the run hypotheses H2 pinned / H3 scoped, wscoped / epoch < 2^62; the former hypothesis
+   live_counted (scounted_ok, wcounted_ok = finding F5, wlive_ok) is now a THEOREM (C02_count_hypotheses_discharged) *)
+Theorem C10_final :
+  forall (s0 : state) (sched : list (nat * list Z)),
+       run_ok s0 sched ->
+       let s := mrun s0 sched in
+       forall (o : nat) (ob : obj),
+       geto s o = Some ob ->
+       destructed (word ob) = false ->
+       strong (word ob) = owners s o + b2z (tok ob) /\ (owners s o = 0 -> tok ob = false -> attempts s o = 1).
+Proof. exact RcWSnapInvP.C10_final. Qed.
+Print Assumptions C10_final.
 
